@@ -40,3 +40,64 @@ example : ∀ lo hi : Int, [Val.num (.int 1), Val.num (.int 5)] = [.num (.int lo
   simp only [List.cons.injEq, Val.num.injEq, Num.int.injEq, and_true] at h
   obtain ⟨rfl, rfl⟩ := h
   decide
+
+/-- an answer as text (`Val` holds floats and has no decidable equality; the hand-written `bKaRange` computes its round bound
+    with `Rat` division, which only the kernel evaluates) -/
+def Bodies.showR : R Val → String
+  | .ok (.arr xs) => "arr " ++ " ".intercalate (xs.map fun | .num n => n.render | _ => "?")
+  | .ok _ => "other"
+  | .error (.err e) => "err " ++ e.code
+  | .error _ => "declined"
+
+/-- `range(1, 5, 2) = {1, 3, 5}` through the translated `while` loop and through the hand-written loop; the side condition of
+    `BODIES_range_Number_Number_Number` holds there (neither side answers with its bound) -/
+example : Bodies.showR (arity3 (ka_range pyLoopFuel) Bodies.stub [.num (.int 1), .num (.int 5), .num (.int 2)]) = "arr i:1 i:3 i:5" ∧
+    Bodies.showR (BodyCode.run .kaRange Bodies.stub [.num (.int 1), .num (.int 5), .num (.int 2)]) = "arr i:1 i:3 i:5" := by
+  constructor <;> decide +kernel
+example : wellTyped [.num, .num, .num] Option.none [.num (.int 1), .num (.int 5), .num (.int 2)] = true := by decide
+/-- a step that makes no progress (`+` returning its left operand, as `1e16 + 0.5` does) is FunctionArgError on both sides -/
+example : Bodies.showR (arity3 (ka_range pyLoopFuel) (fun nm as => match nm, as with | "+", [x, _] => .ok x | _, _ => Bodies.stub nm as)
+      [.num (.int 1), .num (.int 5), .num (.int 2)]) = "err funarg" ∧
+    Bodies.showR (BodyCode.run .kaRange (fun nm as => match nm, as with | "+", [x, _] => .ok x | _, _ => Bodies.stub nm as)
+      [.num (.int 1), .num (.int 5), .num (.int 2)]) = "err funarg" := by
+  constructor <;> decide +kernel
+
+/-! ### the evaluator that runs whole programs through the translated bodies is `Model/Eval.lean`'s evaluator -/
+
+/-- **`Model/EvalG.lean` is not a trusted copy.**  The stream `runG` evaluates whole programs with `EvalG.evalEW … runSessionW`:
+    `Eval.evalE`, `evalEs`, `evalKs`, `evalConds`, `evalStmt`, `runStmts`, `runProgram`, `evalAst`, `runTree`, `runTokens`, `runIn`,
+    `runText`, `runSession` written once more with the dispatcher as a parameter (so that `dispatchTopG`, which prefers the bodies
+    translated from the source, can be put in).  Instantiated with the hand-written model's dispatcher
+    `Eval.dispatchTop = fun nm as kw => Eval.dispatchV Eval.dispatchFuel nm as kw`, each of them IS the corresponding definition of
+    `Model/Eval.lean` — on every tree, token list, text and session (structural induction over `Parser.Ast`, mutual with the
+    list versions; lists of statements / inputs by induction).  Hence `runG` differs from `run` in the dispatcher ONLY
+    (instants, random variables, events, display of the new kinds included), and a copy that falls behind `Model/Eval.lean`
+    stops building. -/
+theorem BODIES_evalG_instance :
+    (∀ env t, EvalG.evalEW dispatchTop env t = evalE env t) ∧
+    (∀ env ts, EvalG.evalEsW dispatchTop env ts = evalEs env ts) ∧
+    (∀ env ks, EvalG.evalKsW dispatchTop env ks = evalKs env ks) ∧
+    (∀ cs, EvalG.evalCondsW dispatchTop cs = evalConds cs) ∧
+    (∀ env t, EvalG.evalStmtW dispatchTop env t = evalStmt env t) ∧
+    (∀ env last ss, EvalG.runStmtsW dispatchTop env last ss = runStmts env last ss) ∧
+    (∀ env t, EvalG.runProgramW dispatchTop env t = runProgram env t) ∧
+    (∀ env t, EvalG.evalAstW dispatchTop env t = evalAst env t) ∧
+    (∀ env t, EvalG.runTreeW dispatchTop env t = runTree env t) ∧
+    (∀ env toks, EvalG.runTokensW dispatchTop env toks = runTokens env toks) ∧
+    (∀ env s, EvalG.runInW dispatchTop env s = runIn env s) ∧
+    (∀ s, EvalG.runTextW dispatchTop s = runText s) ∧
+    (∀ env lost ss, EvalG.runSessionW dispatchTop env lost ss = runSession env lost ss) :=
+  ⟨fun env t => evalEW_top t env, fun env ts => evalEsW_top ts env, fun env ks => evalKsW_top ks env, evalCondsW_top,
+   evalStmtW_top, runStmtsW_top, runProgramW_top, evalAstW_top, runTreeW_top, runTokensW_top, runInW_top, runTextW_top,
+   runSessionW_top⟩
+
+/-- the dispatcher of the instantiation, written out -/
+example : dispatchTop = fun nm as kw => dispatchV dispatchFuel nm as kw := rfl
+
+/-- the same evaluator with the translated bodies' dispatcher is what the stream `runG` runs; an instant and a probability
+    go through it (they were `unmodelled` in the copy before it was brought up to date) -/
+example : (EvalG.runTextW EvalG.dispatchTopG "#2024-03-01# + 1 day").render = "ok 2024-03-02T00:00:00\n" ∧
+    (EvalG.runTextW EvalG.dispatchTopG "P(Binomial(4, 1/2) = 2)").render = "ok 3/8     (0.375)\n" ∧
+    (EvalG.runTextW EvalG.dispatchTopG "range(1, 3, 1/2)").render = "ok {1, 3/2, 2, 5/2, 3}\n" := by
+  refine ⟨?_, ?_, ?_⟩ <;> decide +kernel
+
